@@ -224,5 +224,105 @@ tape_harness("context", [], {"body_raises": "bool", "flush_raises": "bool", "had
              context_body, globals())
 
 
+# ---------------------------------------------------------------- hook freedom
+from engine import verdicts as _V  # noqa: E402
+from harness import tripwires as TW  # noqa: E402
+from harness.frames import ListLogger  # noqa: E402
+import monkeytype.typing as MT  # noqa: E402
+
+POSITIONS = (
+    "arg", "arg-in-list", "arg-in-tuple", "arg-dict-value-strkey", "arg-dict-value-intkey", "arg-dict-key", "arg-in-set",
+    "arg-defaultdict-value", "return", "return-in-list", "yield", "receiver", "global-unrelated", "global-named-like-function",
+    "caller-local", "first-arg-of-unresolvable",
+)
+_RET_OP = sorted(RETURN_OPS)[0]
+
+
+class _Globals(dict):
+    """f_globals of a model frame (a real dict, as in CPython)."""
+
+
+def hookfree_body(t, k):
+    """The tracer must not run user-defined code of the program's objects (C03, second sentence)."""
+    kname, mk = TW.KINDS[t.take(len(TW.KINDS))]
+    pos = POSITIONS[t.take(len(POSITIONS))]
+    obj = mk()
+    if pos in ("arg-dict-key", "arg-in-set"):
+        ASSUME(kname in TW.HASHABLE)
+    if pos in ("global-named-like-function", "caller-local"):
+        ASSUME(kname in TW.CALLABLE)
+    if pos == "receiver":
+        ASSUME(kname in TW.HAS_METH)
+    wrapped = {
+        "arg": lambda: obj, "arg-in-list": lambda: [obj], "arg-in-tuple": lambda: (obj, 1), "arg-dict-value-strkey": lambda: {"a": obj},
+        "arg-dict-value-intkey": lambda: {1: obj}, "arg-dict-key": lambda: {obj: 1}, "arg-in-set": lambda: {obj},
+        "arg-defaultdict-value": lambda: TW.defaultdict(int, a=obj), "return": lambda: obj, "return-in-list": lambda: [obj], "yield": lambda: obj,
+    }
+    value = wrapped[pos]() if pos in wrapped else obj
+    logger = ListLogger()
+    tracer = CallTracer(logger, k, None, None)
+    installed = []
+    if _V.UNDER_ENGINE:
+        # the engine's isinstance never consults __class__; CPython's does (contract model, validated natively every run)
+        for mod in (MT, T):
+            if "isinstance" not in mod.__dict__:
+                mod.__dict__["isinstance"] = TW.cpython_isinstance
+                installed.append(mod)
+    del TW.JOURNAL[:]
+    try:
+        if pos.startswith("arg") or pos in ("return", "return-in-list", "yield"):
+            fr = FakeFrame(CodeView(F.gen_func.__code__), {"n": value if pos.startswith("arg") else 1}, _Globals())
+            tracer.cache[fr.f_code] = F.gen_func
+            tracer(fr, "call", None)
+            if pos == "yield":
+                fr.f_code.co_code = [YIELD_OP]
+                tracer(fr, "return", value)
+                tracer(fr, "call", None)
+            fr.f_code.co_code = [_RET_OP]
+            tracer(fr, "return", value if pos.startswith("return") else None)
+            if len(logger.traces) != 1:
+                return check(False, lambda: f"{kname} at {pos}: no trace logged (type collection failed?)")
+        elif pos == "receiver":
+            code = type(obj).meth.__code__
+            fr = FakeFrame(code, {"self": obj, "x": 1}, _Globals())
+            tracer(fr, "call", None)
+            if fr not in tracer.traces:
+                return check(False, lambda: f"{kname} as receiver: method not resolved")
+        else:
+            # function lookup that has to search: the code object is not reachable by name
+            code = CodeView(F.gen_func.__code__)
+            g = _Globals()
+            back = None
+            local = {"n": 1}
+            if pos == "global-unrelated":
+                g["something"] = obj
+            elif pos == "global-named-like-function":
+                g["gen_func"] = obj
+            elif pos == "caller-local":
+                back = FakeFrame(CodeView(F.mod_func.__code__), {"helper": obj}, _Globals())
+            else:
+                local = {"n": obj}
+            fr = FakeFrame(code, local, g, back)
+            tracer(fr, "call", None)
+    finally:
+        for mod in installed:
+            del mod.__dict__["isinstance"]
+    journal = list(TW.JOURNAL)
+    del TW.JOURNAL[:]
+    return check(not journal, lambda: f"the tracer ran user-defined code of a {kname} object at position '{pos}': {journal[:4]}"
+                                      f"{' ... (%d hook calls)' % len(journal) if len(journal) > 4 else ''}")
+
+
+tape_harness("hookfree", [("t", 2)], {"k": "int"}, hookfree_body, globals())
+
+
+def validate_models():
+    problems = TW.validate_isinstance_model()
+    out = {"isinstance_contract_cases": len(TW.KINDS) * 7 + 70}
+    if problems:
+        out["inconclusive"] = "isinstance contract model disagrees with the interpreter: " + "; ".join(problems[:3])
+    return out
+
+
 def describe(name, args):
     return {k: v for k, v in args.items()}
